@@ -544,7 +544,7 @@ class Summarizer:
     def _expand_args(self, e: ast.AST, st, p: Path, ci, dyn, depth) -> list:
         """Like _expand_calls, but a call at the top of `e` is kept as a call (rules recognise `return self.m(x)` shapes):
         only the calls nested in its arguments are evaluated."""
-        if isinstance(e, ast.Call):
+        if isinstance(e, ast.Call) and not self._effectful_callee(e, ci, dyn):
             argexp = ast.Tuple(list(e.args) + [k.value for k in e.keywords], ast.Load())
             out = []
             for q, tup in self._expand_calls(argexp, st, p, ci, dyn, depth):
@@ -557,6 +557,23 @@ class Summarizer:
                 out.append((q, e2))
             return out
         return self._expand_calls(e, st, p, ci, dyn, depth)
+
+    def _effectful_callee(self, call: ast.Call, ci, dyn) -> bool:
+        """`return self._helper(...)` where the helper does things (calls, writes to self) besides computing a value: its effects
+        belong on the path, so the call is evaluated rather than kept as an expression."""
+        tgt = self._resolve_self_call(call, ci, dyn) if ci is not None else None
+        if tgt is None or _has_loop(tgt[1]):
+            return False
+        for st_ in tgt[1].body:
+            if isinstance(st_, ast.Expr) and isinstance(st_.value, ast.Call):
+                return True
+            if isinstance(st_, (ast.Assign, ast.AugAssign, ast.AnnAssign)):
+                t_ = st_.targets[0] if isinstance(st_, ast.Assign) else st_.target
+                while isinstance(t_, ast.Subscript):
+                    t_ = t_.value
+                if isinstance(t_, ast.Attribute) and isinstance(t_.value, ast.Name) and t_.value.id == 'self':
+                    return True
+        return False
 
     def _expand_calls(self, e: ast.AST, st, p: Path, ci, dyn, depth) -> list:
         """Evaluate the self-method calls with a multi-statement body that occur in expression `e` (innermost first, left to
